@@ -229,10 +229,10 @@ def check_loop_progress(ctx, rule, fn, progress, default_vars=()):
                 return bool(progress(n))
             if vars_:
                 if n.kind in ("UnaryOperator",) and n.op in ("++", "--"):
-                    t = n.children[0].strip()
+                    t = std_unwrap(n.children[0])       # through the reference parameters of folded-in helpers
                     return t.kind == "DeclRefExpr" and t.d["d"] in vars_
                 if n.kind in ("BinaryOperator", "CompoundAssignOperator") and n.op.endswith("=") and n.op not in ("==", "!=", "<=", ">="):
-                    t = n.children[0].strip()
+                    t = std_unwrap(n.children[0])
                     return t.kind == "DeclRefExpr" and t.d["d"] in vars_
                 return False
             return bool(progress and progress(n))
@@ -252,7 +252,7 @@ def check_loop_progress(ctx, rule, fn, progress, default_vars=()):
             for b_ in body:
                 for n_ in fn.blocks[b_].nodes():
                     if n_.kind == "BinaryOperator" and n_.op == "=":
-                        t_ = n_.children[0].strip()
+                        t_ = std_unwrap(n_.children[0])
                         if t_.kind == "DeclRefExpr" and t_.get("local"):
                             vars_.add(t_.d["d"])
         prog_blocks = {b for b in body if any(modifies(n) for n in fn.blocks[b].nodes())}
